@@ -653,3 +653,24 @@ pub fn reused_parser_stages(text: &str, sorts: &[Sort], with_bio: bool) -> Resul
         Err(c) => Err(BuildErr::Caught(c)),
     }
 }
+
+/// D14 (known finding of C12): with ad-hoc MODEL counting the store multiplies by 2^(depth difference) in machine
+/// words while it creates a node, so a diagram of 64+ levels cannot be built when overflow checks are on. A monitor
+/// that meets this on a tall framework in such a build has no object to judge: it counts the case and moves on,
+/// unless it runs on behalf of C12 (`--for_c12`), which reports it under its own signature. Returns true when the
+/// failure was this one (the caller stops judging the case).
+pub fn tall_abort_is_known(cfg: &crate::common::Cfg, rep: &mut crate::common::Report, msg: &str, statements: usize, replay: serde_json::Value) -> bool {
+    if !(cfg!(feature = "adhoccountmodels") && msg.contains("overflow")) {
+        return false;
+    }
+    if cfg.flag("for_c12") {
+        rep.violation(
+            "tall-diagram-aborts:adhoccountmodels",
+            format!("{} statements, a condition chained over nearly all of them: {}", statements, msg),
+            replay,
+        );
+    } else {
+        rep.count("tall_originals_that_cannot_be_built_with_adhoccountmodels", 1);
+    }
+    true
+}
